@@ -22,7 +22,7 @@
    Two deviations of the implementation from this model are recorded findings (F21, F22), see
    known_findings.json; whole-text round trip of config_str is validated on the implementation. *)
 From Coq Require Import List String ZArith Bool Arith.
-From GinV Require Import Lib.Out Lib.PyStr Model.SelectorMap Model.Serial Model.DynReg Proofs.SerialProofs Proofs.DynRegProofs Proofs.DynRegProofs2.
+From GinV Require Import Lib.Out Lib.PyStr Model.SelectorMap Model.Serial Model.DynReg Proofs.SerialProofs Proofs.DynRegProofs Proofs.DynRegSkip Proofs.DynRegProofs2.
 Import ListNotations.
 Open Scope string_scope.
 Open Scope list_scope.
@@ -226,6 +226,108 @@ Theorem C19_orig_feature_statement_realiased :
   process_all Findings.univ_P empty_ctx (header_imports_orig Findings.s_P []) = DErr "SyntaxError".
 Proof. exact Findings.C19_orig_feature_statement_realiased. Qed.
 
+(* ---- skip_unknown under dynamic registration (Proofs/DynRegSkip.v) ---- *)
+(* skip_unknown=False is the plain parse; resolving a reference first and then running its binding is running the binding *)
+Theorem C19_get_configurable_idempotent : forall reg c sel reg1 full rp, ids_ok_for c sel ->
+  get_configurable reg c sel = DOk (reg1, full, rp) -> get_configurable reg1 c sel = DOk (reg1, full, []).
+Proof. exact DynRegSkip.get_configurable_idempotent. Qed.
+Theorem C19_reference_two_phase : forall univ scope sel param scopes rsel s refs c, ids_ok_for c rsel ->
+  run_stmts univ [DBind scope sel param (DRef scopes rsel)] s refs c =
+  then_run (run_stmts univ [DBlock "" rsel] s refs c) (run_stmts univ [DBind scope sel param (DRef scopes rsel)]).
+Proof. exact DynRegSkip.reference_two_phase. Qed.
+Theorem C19_run_stmts_sk_false : forall skipf univ, (forall reg c sel, skipf DSkFalse reg c sel = false) ->
+  forall stmts s refs c, class_ids_ok (PMod univ) = true -> table_ok c ->
+  run_stmts_sk skipf univ DSkFalse stmts s refs c = run_stmts univ stmts s refs c.
+Proof. exact DynRegSkip.run_stmts_sk_false. Qed.
+Theorem C19_parse_call_sk_false : forall univ stmts sr, class_ids_ok (PMod univ) = true ->
+  parse_call_sk univ DSkFalse stmts sr = parse_call univ stmts sr.
+Proof. exact DynRegSkip.parse_call_sk_false. Qed.
+(* the invariants of a parse hold with skip_unknown as well *)
+Theorem C19_references_keep_working_sk : forall skipf univ sk stmts s refs c s' refs' c' e,
+  class_ids_ok (PMod univ) = true -> table_ok c -> reg_wf (ds_reg s) -> refs_resolvable (ds_reg s) refs ->
+  run_stmts_sk skipf univ sk stmts s refs c = (s', refs', c', e) ->
+  reg_wf (ds_reg s') /\ refs_resolvable (ds_reg s') refs'.
+Proof. exact DynRegSkip.C19_references_keep_working_sk. Qed.
+Theorem C19_reference_object_preserved_sk : forall skipf univ sk stmts s refs c s' refs' c' e kp r e0,
+  reg_wf (ds_reg s) -> In (kp, r) refs -> find_sel r (ds_reg s) = Some e0 ->
+  (forall scope sel param v, In (DBind scope sel param v) stmts -> scope <> fst (fst kp) \/ param <> snd kp) ->
+  run_stmts_sk skipf univ sk stmts s refs c = (s', refs', c', e) ->
+  exists r' e', In (kp, r') refs' /\ find_sel r' (ds_reg s') = Some e' /\ ce_obj e' = ce_obj e0.
+Proof. exact DynRegSkip.C19_reference_object_preserved_sk. Qed.
+Theorem C19_table_from_own_imports_sk : forall skipf univ sk stmts s refs s' refs' c' e n v,
+  run_stmts_sk skipf univ sk stmts s refs empty_ctx = (s', refs', c', e) -> tget n (c_table c') = Some v ->
+  exists d, In (DImport d) stmts /\ d_bound_name d = n /\ snd v = d.
+Proof. exact DynRegSkip.C19_table_from_own_imports_sk. Qed.
+Theorem C19_isolation_sk : forall skipf univ sk stmts s1 refs1 s2 refs2 s1' r1' c1 e1 s2' r2' c2 e2,
+  ds_reg s1 = ds_reg s2 ->
+  run_stmts_sk skipf univ sk stmts s1 refs1 empty_ctx = (s1', r1', c1, e1) ->
+  run_stmts_sk skipf univ sk stmts s2 refs2 empty_ctx = (s2', r2', c2, e2) ->
+  c_table c1 = c_table c2 /\ e1 = e2 /\ ds_reg s1' = ds_reg s2'.
+Proof. exact DynRegSkip.C19_isolation_sk. Qed.
+(* the skip decision *)
+Theorem C15_dyn_provided_never_skipped : forall c sel, provides c sel = true ->
+  forall sk reg, should_skip_dyn sk reg c sel = false.
+Proof. exact DynRegSkip.C15_dyn_provided_never_skipped. Qed.
+Theorem C15_dyn_registered_never_skipped : forall reg sel, reg_matches reg sel = true ->
+  forall sk c, should_skip_dyn sk reg c sel = false.
+Proof. exact DynRegSkip.C15_dyn_registered_never_skipped. Qed.
+Theorem C15_dyn_skip_decision : forall sk reg c sel, reg_matches reg sel = false -> provides c sel = false ->
+  should_skip_dyn sk reg c sel = dsk_covers sk sel.
+Proof. exact DynRegSkip.C15_dyn_skip_decision. Qed.
+Theorem C15_dyn_skipped_block_dropped : forall skipf univ sk scope sel rest s refs c, skipf sk (ds_reg s) c sel = true ->
+  run_stmts_sk skipf univ sk (DBlock scope sel :: rest) s refs c = run_stmts_sk skipf univ sk rest s refs c.
+Proof. exact DynRegSkip.C15_dyn_skipped_block_dropped. Qed.
+Theorem C15_dyn_skipped_binding_dropped : forall skipf univ sk scope sel param z rest s refs c, skipf sk (ds_reg s) c sel = true ->
+  run_stmts_sk skipf univ sk (DBind scope sel param (DVal z) :: rest) s refs c = run_stmts_sk skipf univ sk rest s refs c.
+Proof. exact DynRegSkip.C15_dyn_skipped_binding_dropped. Qed.
+Theorem C15_dyn_skipped_ref_binding_dropped : forall skipf univ sk scope sel param scopes rsel rest s refs c s1 refs1 c1,
+  skipf sk (ds_reg s) c rsel = false ->
+  run_stmts univ [DBlock "" rsel] s refs c = (s1, refs1, c1, None) -> skipf sk (ds_reg s1) c1 sel = true ->
+  run_stmts_sk skipf univ sk (DBind scope sel param (DRef scopes rsel) :: rest) s refs c = run_stmts_sk skipf univ sk rest s1 refs1 c1.
+Proof. exact DynRegSkip.C15_dyn_skipped_ref_binding_dropped. Qed.
+(* a reference to a name that is itself skipped is a placeholder: nothing is resolved or registered for it *)
+Theorem C15_dyn_placeholder_binding : forall skipf univ sk scope sel param scopes rsel rest s refs c,
+  skipf sk (ds_reg s) c rsel = true -> skipf sk (ds_reg s) c sel = false ->
+  run_stmts_sk skipf univ sk (DBind scope sel param (DRef scopes rsel) :: rest) s refs c =
+  then_run (run_stmts univ [DBind scope sel param (DVal 0)] s refs c) (run_stmts_sk skipf univ sk rest).
+Proof. exact DynRegSkip.C15_dyn_placeholder_binding. Qed.
+Theorem C15_dyn_placeholder_binding_dropped : forall skipf univ sk scope sel param scopes rsel rest s refs c,
+  skipf sk (ds_reg s) c rsel = true -> skipf sk (ds_reg s) c sel = true ->
+  run_stmts_sk skipf univ sk (DBind scope sel param (DRef scopes rsel) :: rest) s refs c = run_stmts_sk skipf univ sk rest s refs c.
+Proof. exact DynRegSkip.C15_dyn_placeholder_binding_dropped. Qed.
+Theorem C15_dyn_placeholder_registers_nothing : forall skipf univ sk scope sel param scopes rsel s refs c,
+  skipf sk (ds_reg s) c rsel = true -> skipf sk (ds_reg s) c sel = false ->
+  run_stmts_sk skipf univ sk [DBind scope sel param (DRef scopes rsel)] s refs c =
+  run_stmts univ [DBind scope sel param (DVal 0)] s refs c.
+Proof. exact DynRegSkip.C15_dyn_placeholder_registers_nothing. Qed.
+(* a reference to a name the file's own imports provide is never a placeholder: it is resolved *)
+Theorem C15_dyn_provided_reference_resolved : forall univ sk scope sel param scopes rsel rest s refs c,
+  provides c rsel = true ->
+  run_stmts_sk should_skip_dyn univ sk (DBind scope sel param (DRef scopes rsel) :: rest) s refs c =
+  then_run (run_stmts univ [DBlock "" rsel] s refs c)
+    (fun s1 refs1 c1 =>
+       if should_skip_dyn sk (ds_reg s1) c1 sel then run_stmts_sk should_skip_dyn univ sk rest s1 refs1 c1
+       else then_run (run_stmts univ [DBind scope sel param (DRef scopes rsel)] s1 refs1 c1)
+                     (run_stmts_sk should_skip_dyn univ sk rest)).
+Proof. exact DynRegSkip.C15_dyn_provided_reference_resolved. Qed.
+Theorem C15_dyn_missing_import_dropped : forall skipf univ sk d rest s refs c, dsk_truthy sk = true ->
+  process_import univ c d = DErr "ModuleNotFoundError" ->
+  run_stmts_sk skipf univ sk (DImport d :: rest) s refs c = run_stmts_sk skipf univ sk rest s refs c.
+Proof. exact DynRegSkip.C15_dyn_missing_import_dropped. Qed.
+Theorem C15_dyn_known_targets_skip_irrelevant : forall univ sk stmts s refs c, class_ids_ok (PMod univ) = true -> table_ok c ->
+  all_known_dyn univ sk stmts s refs c = true ->
+  run_stmts_sk should_skip_dyn univ sk stmts s refs c = run_stmts univ stmts s refs c.
+Proof. exact DynRegSkip.C15_dyn_known_targets_skip_irrelevant. Qed.
+(* the code before the repair dropped a binding whose target the file's own imports provide *)
+Theorem C15_dyn_orig_drops_provided_binding :
+  DynSkipExample.summary (run_stmts_sk should_skip_dyn_orig DynSkipExample.univ DSkTrue DynSkipExample.stmts DynSkipExample.s0 [] empty_ctx) = ([], [], None) /\
+  DynSkipExample.summary (run_stmts_sk should_skip_dyn DynSkipExample.univ DSkTrue DynSkipExample.stmts DynSkipExample.s0 [] empty_ctx)
+    = (["dmod.fn"], [(("", "dmod.fn"), [("x", 1%Z)])], None) /\
+  run_stmts_sk should_skip_dyn DynSkipExample.univ DSkTrue DynSkipExample.stmts DynSkipExample.s0 [] empty_ctx
+    = run_stmts DynSkipExample.univ DynSkipExample.stmts DynSkipExample.s0 [] empty_ctx /\
+  all_known_dyn DynSkipExample.univ DSkTrue DynSkipExample.stmts DynSkipExample.s0 [] empty_ctx = true.
+Proof. exact DynSkipExample.C15_dyn_orig_drops_provided_binding. Qed.
+
 Print Assumptions C19_unprovided_name.
 Print Assumptions C19_reserved_gin.
 Print Assumptions C19_late_enabling.
@@ -258,3 +360,24 @@ Print Assumptions C19_orig_header_not_reparsable_reserved_gin.
 Print Assumptions C19_header_feature_first_reachable.
 Print Assumptions C19_reachable_canonical_feature.
 Print Assumptions C19_orig_feature_statement_realiased.
+Print Assumptions C19_get_configurable_idempotent.
+Print Assumptions C19_reference_two_phase.
+Print Assumptions C19_run_stmts_sk_false.
+Print Assumptions C19_parse_call_sk_false.
+Print Assumptions C19_references_keep_working_sk.
+Print Assumptions C19_reference_object_preserved_sk.
+Print Assumptions C19_table_from_own_imports_sk.
+Print Assumptions C19_isolation_sk.
+Print Assumptions C15_dyn_provided_never_skipped.
+Print Assumptions C15_dyn_registered_never_skipped.
+Print Assumptions C15_dyn_skip_decision.
+Print Assumptions C15_dyn_skipped_block_dropped.
+Print Assumptions C15_dyn_skipped_binding_dropped.
+Print Assumptions C15_dyn_skipped_ref_binding_dropped.
+Print Assumptions C15_dyn_missing_import_dropped.
+Print Assumptions C15_dyn_known_targets_skip_irrelevant.
+Print Assumptions C15_dyn_orig_drops_provided_binding.
+Print Assumptions C15_dyn_placeholder_binding.
+Print Assumptions C15_dyn_placeholder_binding_dropped.
+Print Assumptions C15_dyn_placeholder_registers_nothing.
+Print Assumptions C15_dyn_provided_reference_resolved.
